@@ -131,10 +131,150 @@ pub fn plans(ctx: &WorkerCtx) -> Vec<Plan> {
     v
 }
 
+
+// ---------------------------------------------------------------------------
+// The same oracle over the real `std::time::Instant` / `Duration` implementation of the time traits,
+// with nanosecond-granular clock steps (the virtual clock above counts whole microseconds).
+// ---------------------------------------------------------------------------
+fn share_below_ns(b: u64, e: u64, frac: f64) -> bool {
+    if !(frac > 0.0) || b == 0 {
+        return true;
+    }
+    if e == 0 {
+        return false;
+    }
+    // the implementation divides two f64 second counts (relative error ~1e-16); 1e-9 of slack keeps an exact
+    // boundary from being judged either way
+    (b as f64) / (e as f64) < frac * (1.0 + 1e-9)
+}
+#[derive(Clone)]
+struct StdState {
+    f: maybenot::Framework<Ms, crate::rng::WordRng, std::time::Instant>,
+    off: u64,
+    blocked: u64,
+    active: bool,
+    since: u64,
+}
+/// Exhaustive DFS to `depth` over {BlockingBegin, BlockingEnd, NormalRecv} x nanosecond steps. Returns (calls, first failure).
+pub fn std_time_dfs(cfg: &Cfg, depth: usize) -> (u64, Option<(Vec<(String, i64)>, String)>) {
+    use maybenot::event::TriggerEvent as T;
+    let t0 = std::time::Instant::now();
+    let ms = Ms(std::sync::Arc::new(cfg.machines.clone()));
+    let f = match maybenot::Framework::new(ms, 0.0, cfg.blk_frac, t0, crate::rng::WordRng::new(&[], 5)) {
+        Ok(f) => f,
+        Err(e) => return (0, Some((vec![], format!("{:?}", e)))),
+    };
+    let events = [T::BlockingBegin { machine: mid(0) }, T::BlockingEnd, T::NormalRecv];
+    let deltas: [i64; 8] = [0, 1, 500, 999, 1000, 1500, 3000, -700];
+    let mut calls = 0u64;
+    let mut stack: Vec<(StdState, Vec<(u8, u8)>)> = vec![(StdState { f, off: 0, blocked: 0, active: false, since: 0 }, vec![])];
+    while let Some((st, hist)) = stack.pop() {
+        if hist.len() >= depth {
+            continue;
+        }
+        for (ei, e) in events.iter().enumerate() {
+            for (di, d) in deltas.iter().enumerate() {
+                let mut s2 = st.clone();
+                s2.off = if *d >= 0 { s2.off + *d as u64 } else { s2.off.saturating_sub(d.unsigned_abs()) };
+                let now = t0 + std::time::Duration::from_nanos(s2.off);
+                match e {
+                    T::BlockingBegin { .. } => {
+                        if !s2.active {
+                            s2.active = true;
+                            s2.since = s2.off;
+                        }
+                    }
+                    T::BlockingEnd => {
+                        if s2.active {
+                            s2.blocked += s2.off.saturating_sub(s2.since);
+                            s2.active = false;
+                        }
+                    }
+                    _ => {}
+                }
+                calls += 1;
+                let acts: Vec<Act> = s2.f.trigger_events(std::slice::from_ref(e), now).map(conv_std).collect();
+                let ongoing = if s2.active { s2.off.saturating_sub(s2.since) } else { 0 };
+                let blocked = s2.blocked + ongoing;
+                for a in &acts {
+                    if let Act::Block { m, replace, .. } = a {
+                        let mach = &cfg.machines[*m];
+                        let c1 = *replace && s2.active;
+                        let c2 = blocked < mach.allowed_blocked_microsec.saturating_mul(1000);
+                        let c3 = share_below_ns(blocked, s2.off, mach.max_blocking_frac) && share_below_ns(blocked, s2.off, cfg.blk_frac);
+                        if !(c1 || c2 || c3) {
+                            let mut h: Vec<(String, i64)> = hist.iter().map(|(a, b)| (ev_to_string(&events[*a as usize]), deltas[*b as usize])).collect();
+                            h.push((ev_to_string(e), *d));
+                            return (calls, Some((h, format!("BlockOutgoing returned for machine {m} although over its limits: blocked={blocked}ns (blocking active={}) elapsed={}ns allowed_blocked_microsec={} machine max_blocking_frac={} framework max_blocking_frac={} replace={replace}", s2.active, s2.off, mach.allowed_blocked_microsec, mach.max_blocking_frac, cfg.blk_frac))));
+                        }
+                    }
+                }
+                let mut h2 = hist.clone();
+                h2.push((ei as u8, di as u8));
+                stack.push((s2, h2));
+            }
+        }
+    }
+    (calls, None)
+}
+pub fn std_time_configs() -> Vec<Cfg> {
+    let mut lib = vec![];
+    for replace in [false, true] {
+        for allowed in [0u64, 1, 2] {
+            for frac in [0.0, 0.25, 0.5, 1.0] {
+                lib.push((format!("blocker[k0,rep{replace},allowed{allowed},frac{frac}]"), fam::blocker(0, replace, allowed, frac)));
+            }
+        }
+    }
+    fam::singles(&lib, &[(0.0, 0.0), (0.0, 0.5), (0.0, 0.25)])
+}
+
 pub const RULE: &str = "single-event calls on the real Framework from every explored state over a virtual clock (time steps incl. 0 and backwards); the observer recomputes blocked time from the fed BlockingBegin/BlockingEnd events and time stamps and judges every returned BlockOutgoing. distinct_nontrivial = distinct product states first reached by a call in which blocking was returned with the microsecond allowance exhausted, or a blocking state was entered and no action came back";
 
 pub fn worker(ctx: &WorkerCtx) -> WorkerOut {
-    let s = run_e1::<Obs>("C03", plans(ctx), ctx, RULE);
+    let mut s = run_e1::<Obs>("C03", plans(ctx), ctx, RULE);
+    if ctx.only_unit.is_none() {
+        // std::time phase: all histories to the depth bound, in parallel over configurations
+        let cfgs = std_time_configs();
+        let depth = if ctx.quick() { 4 } else { 5 };
+        let next = std::sync::atomic::AtomicUsize::new(0);
+        let parts: Vec<(u64, Vec<(usize, Vec<(String, i64)>, String)>)> = std::thread::scope(|sc| {
+            let hs: Vec<_> = (0..ctx.threads())
+                .map(|_| {
+                    let (next, cfgs) = (&next, &cfgs);
+                    sc.spawn(move || {
+                        let (mut n, mut f) = (0u64, vec![]);
+                        loop {
+                            let i = next.fetch_add(1, std::sync::atomic::Ordering::Relaxed);
+                            if i >= cfgs.len() {
+                                break;
+                            }
+                            let (c, fail) = std_time_dfs(&cfgs[i], depth);
+                            n += c;
+                            crate::supervise::beat();
+                            if let Some((h, m)) = fail {
+                                f.push((i, h, m));
+                            }
+                        }
+                        (n, f)
+                    })
+                })
+                .collect();
+            hs.into_iter().map(|h| h.join().unwrap()).collect()
+        });
+        let mut calls = 0u64;
+        for (n, fails) in parts {
+            calls += n;
+            for (i, h, m) in fails {
+                if s.reported.len() < 12 {
+                    s.reported.push(Rep { signature: format!("C03:std-time:{}:{}", cfgs[i].label, first_line(&m).chars().take(60).collect::<String>()), summary: format!("[{}] std::time clock, after {} calls: {}", cfgs[i].label, h.len(), m), replay: json!({"property": "C03", "engine": "E1-std-time", "config_index": i, "config": cfgs[i].label, "history_event_and_step_ns": h, "depth": depth, "message": m}) });
+                }
+            }
+        }
+        s.coverage["std_time_configurations"] = json!(cfgs.len());
+        s.coverage["std_time_depth"] = json!(depth);
+        s.coverage["std_time_calls_all_histories"] = json!(calls);
+    }
     let vacuous = if s.nontrivial_states < 200 && ctx.only_unit.is_none() && s.reported.is_empty() { Some(format!("only {} non-trivial states", s.nontrivial_states)) } else { None };
     WorkerOut {
         level: "model_checking",
@@ -145,5 +285,16 @@ pub fn worker(ctx: &WorkerCtx) -> WorkerOut {
     }
 }
 pub fn replay(v: &Value) -> Result<Option<String>, String> {
+    if v["engine"].as_str() == Some("E1-std-time") {
+        let cfgs = std_time_configs();
+        let i = v["config_index"].as_u64().ok_or("no config index")? as usize;
+        let d = v["depth"].as_u64().unwrap_or(4) as usize;
+        let a = std_time_dfs(cfgs.get(i).ok_or("config index")?, d).1.map(|x| x.1);
+        let b = std_time_dfs(&cfgs[i], d).1.map(|x| x.1);
+        if a.is_some() != b.is_some() {
+            return Err("std-time replay not deterministic".into());
+        }
+        return Ok(a);
+    }
     replay_e1::<Obs>(v, false)
 }
